@@ -165,6 +165,9 @@ func (g *gen) c07explore(w *world, pattern, version, polExtra, prelude int, budg
 					key = "ake-collision-deadlock"
 				}
 				olog.viol("C07", key, fmt.Sprintf("start pattern %d (prelude %d), OTRv%d, schedule %s ends quiescent in %s [%s]", pattern, prelude, version, sched, d, c07what(pattern, prelude)))
+			} else if bytes.Equal(sa.SSID, make([]byte, len(sa.SSID))) {
+				// one common session has a session id (the first 64 bits of a hash of the shared secret)
+				olog.viol("C07", "no-session-id", fmt.Sprintf("start pattern %d (prelude %d), OTRv%d, schedule %s: both sides are encrypted at quiescence and report the empty session id %x [%s]", pattern, prelude, version, sched, sa.SSID, c07what(pattern, prelude)))
 			}
 			return
 		}
@@ -217,6 +220,183 @@ func c07what(pattern, prelude int) string {
 	return s
 }
 
+// ---------------------------------------------------------------------------------------------
+// Start triggers REPEATED IN FLIGHT: the trigger that started the exchange (a whitespace-tagged
+// text, a query, a Send under REQUIRE_ENCRYPTION) occurs a second time after `at` messages of the
+// first exchange have been delivered. One side may then complete two exchanges (the second one
+// while it is already encrypted) and the other side only one. Every maximal delivery schedule is
+// run; at quiescence the property itself is judged: both sides encrypted, no exchange pending, ONE
+// COMMON session (equal, published session ids), and the session carries a text in each direction.
+
+var c07repNames = map[int]string{
+	1: "A (SEND_WHITESPACE_TAG) calls Send(\"hello\") towards B (WHITESPACE_START_AKE); repeated trigger: A calls Send(\"there\")",
+	2: "B's query is on its way to A; repeated trigger: a second query of B is put on the wire",
+	3: "B's query is on its way to A; repeated trigger: 75 s pass and a second query of B is put on the wire",
+	4: "A (REQUIRE_ENCRYPTION) calls Send(\"hello\") (a query goes out, the text is kept); repeated trigger: A calls Send(\"again\")",
+	5: "A (REQUIRE_ENCRYPTION) calls Send(\"hello\") (a query goes out, the text is kept); repeated trigger: 75 s pass and A calls Send(\"again\")",
+}
+
+// the system at the start, and the repeated trigger
+func (g *gen) c07repStart(w *world, kind, version int) (*c07sys, func()) {
+	w.parties = map[string]*party{}
+	w.dead = false
+	pol := 2
+	if version == 3 {
+		pol = 4
+	}
+	polA, polB := pol, pol
+	switch kind {
+	case 1:
+		polA, polB = pol|16, pol|32
+	case 4, 5:
+		polA = pol | 8
+	}
+	a := w.newParty(partyCfg{policies: polA, keyIdx: 0})
+	b := w.newParty(partyCfg{policies: polB, keyIdx: 1})
+	l := &link{w: w, a: a, b: b}
+	var again func()
+	switch kind {
+	case 1:
+		ts, _ := w.send(a, []byte("hello"))
+		l.enqueue(a, ts)
+		again = func() {
+			ts, _ := w.send(a, []byte("there"))
+			l.enqueue(a, ts)
+		}
+	case 2, 3:
+		l.enqueue(b, []otr3.ValidMessage{w.query(b)})
+		again = func() {
+			if kind == 3 {
+				w.tick(75)
+			}
+			l.enqueue(b, []otr3.ValidMessage{w.query(b)})
+		}
+	case 4, 5:
+		ts, _ := w.send(a, []byte("hello"))
+		l.enqueue(a, ts)
+		again = func() {
+			if kind == 5 {
+				w.tick(75)
+			}
+			ts, _ := w.send(a, []byte("again"))
+			l.enqueue(a, ts)
+		}
+	}
+	return &c07sys{l: l, w: w}, again
+}
+
+// one text from `from` to `to` over the settled link; what `to` is shown
+func (s *c07sys) c07ping(from, to *party, text string) (got string, ok bool) {
+	ts, err := s.w.send(from, []byte(text))
+	if err != nil {
+		return "Send: " + err.Error(), false
+	}
+	got = "nothing"
+	for _, m := range ts {
+		plain, back, err, _ := s.w.recv(to, m)
+		s.l.enqueue(to, back)
+		if err != nil {
+			return "Receive: " + err.Error(), false
+		}
+		if plain != nil {
+			got = fmt.Sprintf("%q", plain)
+			ok = string(plain) == text
+		}
+	}
+	s.l.settle(6)
+	return
+}
+
+// the maximal schedules already run from one start: a binary tree over the delivery CHOICES (forced
+// deliveries have no node); a walk never enters a subtree that is exhausted
+type c07node struct {
+	kid  [2]*c07node
+	done bool
+}
+
+// Up to `count` different maximal schedules of one start (kind, version, position of the repeated
+// trigger), drawn by random walks that avoid what was run already: exhaustive when the start has at
+// most `count` schedules, a random sample otherwise.
+func (g *gen) c07exploreRepeat(w *world, kind, version, at int, count int, budget *int) {
+	const maxLen = 24
+	root := &c07node{}
+	for run := 0; run < count && *budget > 0 && !root.done; run++ {
+		s, again := g.c07repStart(w, kind, version)
+		delivered, repeated := 0, false
+		sched := ""
+		path := []*c07node{root}
+		for {
+			if !repeated && delivered == at && len(s.l.qab)+len(s.l.qba) > 0 {
+				repeated = true
+				again()
+				sched += "!"
+			}
+			canAB, canBA := len(s.l.qab) > 0, len(s.l.qba) > 0
+			if !canAB && !canBA || delivered >= maxLen {
+				break
+			}
+			toB := canAB
+			if canAB && canBA {
+				n := path[len(path)-1]
+				for i := range n.kid {
+					if n.kid[i] == nil {
+						n.kid[i] = &c07node{}
+					}
+				}
+				c := g.r.Intn(2)
+				if n.kid[c].done {
+					c = 1 - c
+				}
+				path = append(path, n.kid[c])
+				toB = c == 1
+			}
+			s.l.deliver(toB)
+			delivered++
+			if toB {
+				sched += ">"
+			} else {
+				sched += "<"
+			}
+		}
+		path[len(path)-1].done = true
+		for i := len(path) - 2; i >= 0; i-- {
+			path[i].done = path[i].kid[0].done && path[i].kid[1].done
+		}
+		if !repeated {
+			return // the exchange was over before position `at`: no trigger in flight
+		}
+		*budget--
+		d := s.describe()
+		olog.ok("C07")
+		g.dist[fmt.Sprintf("c07:repeat%d:%s", kind, d)]++
+		g.dist[fmt.Sprintf("c07:repeat%d:at%d", kind, at)]++
+		a, b := s.l.a, s.l.b
+		sa, sb := otr3.VerifSnapshot(a.c), otr3.VerifSnapshot(b.c)
+		where := fmt.Sprintf("%s, after %d deliveries; OTRv%d, schedule %s (> is A to B, ! the repeated trigger)", c07repNames[kind], at, version, sched)
+		switch {
+		case len(s.l.qab)+len(s.l.qba) > 0:
+			olog.viol("C07", "exchange-does-not-come-to-rest", fmt.Sprintf("%s: messages are still in flight after %d deliveries, state %s", where, delivered, d))
+		case !(a.c.IsEncrypted() && b.c.IsEncrypted() && sa.AkeState == 0 && sb.AkeState == 0):
+			key := "exchange-does-not-complete"
+			if sa.AkeState == 2 && sb.AkeState == 2 {
+				key = "ake-collision-deadlock"
+			}
+			olog.viol("C07", key, fmt.Sprintf("%s ends quiescent in %s", where, d))
+		case !bytes.Equal(sa.SSID, sb.SSID):
+			olog.viol("C07", "no-common-session", fmt.Sprintf("%s: both sides are encrypted at quiescence but not in one common session: A reports session id %x, B %x", where, sa.SSID, sb.SSID))
+		case bytes.Equal(sa.SSID, make([]byte, len(sa.SSID))):
+			olog.viol("C07", "no-session-id", fmt.Sprintf("%s: both sides are encrypted at quiescence and report the empty session id %x", where, sa.SSID))
+		default:
+			// one common session: it carries a text in each direction
+			if got, ok := s.c07ping(a, b, "ping from A"); !ok {
+				olog.viol("C07", "common-session-unusable", fmt.Sprintf("%s: both sides encrypted with session id %x, but A's Send(\"ping from A\") reaches B as %s", where, sa.SSID, got))
+			} else if got, ok := s.c07ping(b, a, "ping from B"); !ok {
+				olog.viol("C07", "common-session-unusable", fmt.Sprintf("%s: both sides encrypted with session id %x, but B's Send(\"ping from B\") reaches A as %s", where, sa.SSID, got))
+			}
+		}
+	}
+}
+
 func init() {
 	profiles["c07"] = func(seed int64, n int, out *emitter, extra map[string]interface{}) map[string]int {
 		g := &gen{r: rand.New(rand.NewSource(seed)), out: out, dist: map[string]int{}}
@@ -254,6 +434,31 @@ func init() {
 		}
 		c07mix = 0
 		extra["schedules"] = n - budget
+		// start triggers repeated in flight, at every position of the first exchange (own budget: the
+		// schedules above stay what they were)
+		rbudget := n / 2
+		rtotal := rbudget
+		scale := 1
+		if n > 400 {
+			scale = n / 400
+		}
+		for _, version := range []int{3, 2} {
+			for kind := 1; kind <= 5; kind++ {
+				for at := 0; at <= 5; at++ {
+					// positions 0 and 1 have many schedules that all behave alike (the second trigger
+					// overtakes the first answer); from position 2 on one side can complete two exchanges
+					count := 6
+					if at < 2 {
+						count = 3
+					}
+					if version == 2 {
+						count = 2
+					}
+					g.c07exploreRepeat(w, kind, version, at, count*scale, &rbudget)
+				}
+			}
+		}
+		extra["repeat_schedules"] = rtotal - rbudget
 		extra["panics"] = panicCount
 		olog.export(extra)
 		return g.dist
